@@ -365,7 +365,7 @@ impl Machine {
     fn with_limit(h: &History, mem_limit: usize) -> Option<Machine> {
         let ctl = VmCtl::new(CtlConfig { gc: GcPlan::Natural, ..Default::default() });
         ctl.install();
-        let knobs = Knobs { budget: BIG_BUDGET, mem_limit, value_stack: h.value_stack, call_stack: h.call_stack };
+        let knobs = Knobs { budget: BIG_BUDGET, mem_limit, value_stack: h.value_stack, call_stack: h.call_stack, limit_from: None };
         let vm = new_vm(&ctl, &knobs, HostPlan::default())?;
         Some(Machine { ctl, vm: Some(vm) })
     }
